@@ -498,21 +498,26 @@ def r03_4(ctx: Ctx, taint: Taint, closure, sinks, link_sinks, roots) -> None:
                       f"{kind} on an archive-named path is performed while earlier members may have created links, but {why}: "
                       "a chain of individually harmless links (a -> ., a/b -> ..) redirects a later member outside the destination",
                       path=ctx.res.call_path(roots, f.qname))
-    # parallel branch off when the archive has link members
+    parallel_guard(ctx, "R03.4")
+
+
+def parallel_guard(ctx: Ctx, rule: str) -> None:
+    """every call of Worker.extract in _extract (callback arm and plain arm are siblings) switches parallel extraction off when the
+    archive holds link members: folder tasks that create links and tasks that write through them must not run concurrently."""
     ex = shared.szf(ctx, "_extract")
     wcalls = [c for c in q.calls(ex) if "py7zr:Worker.extract" in shared.targets_of(ctx, ex, c)]
-    ctx.floor("R03.4", len(wcalls), 1, "Worker.extract call in _extract")
+    ctx.floor(rule, len(wcalls), 1, "Worker.extract calls in _extract")
     for c in wcalls:
         par = next((k.value for k in c.keywords if k.arg == "parallel"), c.args[2] if len(c.args) > 2 else None)
         if par is None:
-            ctx.fail("R03.4", ex, c, "Worker.extract called without a parallel argument")
+            ctx.fail(rule, ex, c, "Worker.extract called without a parallel argument")
             continue
         exprs = q.sources_of(ex, par, depth=3)
         mentions_links = any(isinstance(n, ast.Attribute) and n.attr in ("is_symlink", "is_junction") for e in exprs for n in ast.walk(e))
         const_false = isinstance(par, ast.Constant) and par.value is False
-        ctx.check(mentions_links or const_false, "R03.4", ex, c, "parallel extraction disabled for archives with link members",
+        ctx.check(mentions_links or const_false, rule, ex, c, "parallel extraction disabled for archives with link members",
                   "extraction may run folders in parallel although the archive contains link members: the check-then-create of one "
-                  "worker races with link creation by another", construct=f"parallel={norm(par)}")
+                  "worker races with link creation by another (the result depends on the schedule)", construct=f"parallel={norm(par)}")
 
 
 def r03_6(ctx: Ctx, roots) -> None:
